@@ -442,7 +442,7 @@ impl Debugger {
             }
 
             Command::Eval { instruction } => {
-                eval::eval(state, instruction);
+                eval::eval(state, self.orig(), instruction);
                 self.should_echo_pc = true;
             }
 
